@@ -210,7 +210,9 @@ func main() {
 		}
 		os.Exit(doReplay(*replay))
 	}
-	setupProcess(*prop, *logPath)
+	if *dumpPlan < 0 {
+		setupProcess(*prop, *logPath)
+	}
 	w := worlds[*prop]
 	if w == nil {
 		fmt.Fprintln(os.Stderr, "unknown property", *prop)
